@@ -42,7 +42,7 @@ def shards(tier, seed):
     out = []
     n = 8 if tier == "quick" else 16
     for i in range(n):
-        out.append({"kind": "random", "mode": ("sync", "noise", "pct")[i % 3], "runs": 60 if tier == "quick" else 1500,
+        out.append({"kind": "random", "mode": ("sync", "noise", "pct")[i % 3], "runs": 60 if tier == "quick" else 4000,
                     "transport": ("pipe", "tcp")[i % 2]})
     nsw = 4 if tier == "quick" else 8
     for i in range(nsw):
